@@ -81,7 +81,24 @@ pub enum Case {
     /// layer 4: large bounds, word model, rejections consume fresh words
     UniformLarge { bits: u16, seed: u64, rejections: u8 },
     /// layer 5: noise application
-    Noise { typ: u8, f128: bool, max: u64, len: u8, eps_n: u64, eps_d: u64, share_seed: u64, noises: Vec<i64>, huge: bool },
+    Noise {
+        typ: u8,
+        f128: bool,
+        max: u64,
+        len: u8,
+        eps_n: u64,
+        eps_d: u64,
+        share_seed: u64,
+        noises: Vec<i64>,
+        huge: bool,
+        /// L1BoundSum only: 0 = `max` as is; 1 = p−1−max%1000; 2 = 2^(W−1)+max%1000; 3 = 2^(W−1)−1−max%1000;
+        /// 4 = 2^(W−1) (W = width of the field's integer type)
+        #[serde(default)]
+        max_shape: u8,
+        /// selects the measurement count handed to add_noise_to_agg_share: 1, 0, 2, 1000, usize::MAX
+        #[serde(default)]
+        count_sel: u8,
+    },
 }
 
 // ------------------------------------------------------------------------------------------------
@@ -1049,9 +1066,32 @@ fn uniform_large(bits: u16, seed: u64, rejections: u8, obs: &mut Obs) -> u64 {
 // Layer 5: noise application
 
 #[allow(clippy::too_many_arguments)]
-fn noise_case(typ: u8, f128: bool, max: u64, len: u8, eps_n: u64, eps_d: u64, share_seed: u64, noises: &[i64], huge: bool, obs: &mut Obs) {
+fn noise_case(typ: u8, f128: bool, max: u64, len: u8, eps_n: u64, eps_d: u64, share_seed: u64, noises: &[i64], huge: bool, max_shape: u8, count_sel: u8, obs: &mut Obs) {
     let len = (len as usize % 6) + 1;
     let max = max.max(1);
+    let count = [1usize, 0, 2, 1000, usize::MAX][count_sel as usize % 5];
+    if count != 1 {
+        obs.label(format!("noise:count={count}"));
+    }
+    // the bound actually used (wide shapes only for L1BoundSum, whose constructor admits 0 < max < p)
+    let max_wide: u128 = if typ % 3 == 2 {
+        let (w, pm1) = if f128 { (128u32, P128 - 1) } else { (64u32, P64 as u128 - 1) };
+        let half = 1u128 << (w - 1);
+        let r = (max % 1000) as u128;
+        match max_shape % 5 {
+            0 => max as u128,
+            1 => pm1 - r,
+            2 => half + r,
+            3 => half - 1 - r,
+            _ => half,
+        }
+    } else {
+        max as u128
+    };
+    if max_wide > u64::MAX as u128 / 2 {
+        obs.label("noise:bound-above-half-width");
+        obs.nt();
+    }
     let eps = match Rational::from_unsigned(eps_n, eps_d) {
         Ok(e) => e,
         Err(_) => {
@@ -1083,7 +1123,7 @@ fn noise_case(typ: u8, f128: bool, max: u64, len: u8, eps_n: u64, eps_d: u64, sh
     let (name, sens, out_len): (&str, BigUint, usize) = match typ % 3 {
         0 => ("SumVec", ((BigUint::one() << bits) - 1u32) * BigUint::from(len), len),
         1 => ("Histogram", BigUint::from(2u32), len),
-        _ => ("L1BoundSum", BigUint::from(max) * 2u32, len),
+        _ => ("L1BoundSum", BigUint::from(max_wide) * 2u32, len),
     };
     let want_scale: Q = Q::from(sens) / &epsq;
     let noise_vals: Vec<BigInt> = (0..out_len)
@@ -1122,7 +1162,7 @@ fn noise_case(typ: u8, f128: bool, max: u64, len: u8, eps_n: u64, eps_d: u64, sh
                         }
                         _ => None,
                     },
-                    || vdaf.add_noise_to_agg_share(&strat, &(), &mut share, 1),
+                    || vdaf.add_noise_to_agg_share(&strat, &(), &mut share, count),
                 )
             });
             match r {
@@ -1138,11 +1178,11 @@ fn noise_case(typ: u8, f128: bool, max: u64, len: u8, eps_n: u64, eps_d: u64, sh
             }
             let sc = scales.borrow();
             if sc.len() != out_len {
-                obs.fail("noise-draw-count", format!("{name}: {} noise draws for {out_len} coordinates (one independent draw per coordinate is specified)", sc.len()));
+                obs.fail("noise-draw-count", format!("{name}: {} noise draws for {out_len} coordinates with measurement count {count} (one independent draw per coordinate is specified)", sc.len()));
                 return;
             }
             if sc.iter().any(|x| *x != want_scale) {
-                obs.fail("noise-scale", format!("{name} (max {max}, len {len}, ε = {eps_n}/{eps_d}): Laplace scale {} used; the documented sensitivity / ε is {want_scale}", sc[0]));
+                obs.fail("noise-scale", format!("{name} (max {max_wide}, len {len}, ε = {eps_n}/{eps_d}): Laplace scale {} used; the documented sensitivity / ε is {want_scale}", sc[0]));
                 return;
             }
             let pi = BigInt::from_biguint(Sign::Plus, p.clone());
@@ -1162,8 +1202,8 @@ fn noise_case(typ: u8, f128: bool, max: u64, len: u8, eps_n: u64, eps_d: u64, sh
         (0, false) => run!(Field64, Prio3::<SumVec<Field64, ParallelSum<Field64, Mul>>, XofTurboShake128, 32>::new(2, 1, 0xFFFF0000, match SumVec::new(max, len, 2) { Ok(t) => t, Err(e) => { obs.fail("noise-ctor", format!("{e}")); return; } })),
         (1, true) => run!(Field128, Prio3::new_histogram(2, len, 2)),
         (1, false) => run!(Field64, Prio3::<Histogram<Field64, ParallelSum<Field64, Mul>>, XofTurboShake128, 32>::new(2, 1, 0xFFFF0000, match Histogram::new(len, 2) { Ok(t) => t, Err(e) => { obs.fail("noise-ctor", format!("{e}")); return; } })),
-        (_, true) => run!(Field128, Prio3::new_l1_bound_sum(2, max128, len, 2)),
-        (_, false) => run!(Field64, Prio3::<L1BoundSum<Field64, ParallelSum<Field64, Mul>>, XofTurboShake128, 32>::new(2, 1, 0xFFFF0000, match L1BoundSum::new(max, len, 2) { Ok(t) => t, Err(e) => { obs.fail("noise-ctor", format!("{e}")); return; } })),
+        (_, true) => run!(Field128, Prio3::new_l1_bound_sum(2, max_wide, len, 2)),
+        (_, false) => run!(Field64, Prio3::<L1BoundSum<Field64, ParallelSum<Field64, Mul>>, XofTurboShake128, 32>::new(2, 1, 0xFFFF0000, match L1BoundSum::new(max_wide as u64, len, 2) { Ok(t) => t, Err(e) => { obs.fail("noise-ctor", format!("{e}")); return; } })),
     }
     obs.label(format!("noise:{name}:{}", if f128 { "Field128" } else { "Field64" }));
     if noise_vals.iter().any(|x| x.is_negative()) {
@@ -1189,7 +1229,7 @@ impl Check for C15 {
     type Case = Case;
     const ID: &'static str = "C15";
     fn rule(&self) -> String {
-        "five layers, all with hook H3 interceptors or the public Rng interface. (1) generated rational parameters (lattice 1/1, 1/2, 2/3, 5, 17/3, 1/1000, 10^6/7, large coprime pairs) × generated tapes of uniform draws: the real Laplace/Gaussian samplers and a transcription of CKS20 Algorithms 1-3 consume the same tape: identical outputs and identical sequences of requested ranges, and no read of the random source outside uniform draws. (2) per layer, with the layer below intercepted: Bernoulli(n/d) true for exactly n of the d draws (all d ≤ 4096, else {1, n−1, n, n+1, d}); Bernoulli(exp(−γ)) parameters γ/k, parity rule and the exact rational Taylor identity of the path weights; the γ > 1 factorisation with short-circuit; geometric, Laplace (−0 retry) and Gaussian (t = ⌊σ⌋+1 and the rational acceptance identity) structure. (3) path trees enumerated with exact rational weights by replaying the sampler under prescribed Bernoulli/uniform answers, pruned below a weight threshold (the pruned mass is the stated residual): discrete Laplace(1/2,1,3/2,2,5) end to end (coarse: residual about 2^-7..2^-10, enough for law errors of a percent), Bernoulli(exp(−γ)) for ten γ incl. γ > 1 and the Gaussian acceptance probability of every proposal y ∈ [−7,7] for σ ∈ {1/2,1,2,3,5/2} (fine: residual ≤ 2^-20); each mass interval [m, m+residual] must meet the closed-form probability bracketed by rational bounds on exp. (4) uniform big integers on a tape RNG: for every bound ≤ 1024 every candidate value (bijection, acceptance exactly < bound, rejected candidates consume fresh words); large bounds against the little-endian word model. (5) add_noise_to_agg_share for SumVec/Histogram/L1BoundSum over both fields with the Laplace layer intercepted: one draw per coordinate, scale = documented sensitivity / ε as exact rationals, share + noise reduced by floor-mod incl. negative noise and |noise| > p; ε = 0 and zero denominators refused. Non-trivial = a path with a rejection, a non-integer parameter, negative or oversized noise; distinct by case hash (enumerated items by construction)".into()
+        "five layers, all with hook H3 interceptors or the public Rng interface. (1) generated rational parameters (lattice 1/1, 1/2, 2/3, 5, 17/3, 1/1000, 10^6/7, large coprime pairs) × generated tapes of uniform draws: the real Laplace/Gaussian samplers and a transcription of CKS20 Algorithms 1-3 consume the same tape: identical outputs and identical sequences of requested ranges, and no read of the random source outside uniform draws. (2) per layer, with the layer below intercepted: Bernoulli(n/d) true for exactly n of the d draws (all d ≤ 4096, else {1, n−1, n, n+1, d}); Bernoulli(exp(−γ)) parameters γ/k, parity rule and the exact rational Taylor identity of the path weights; the γ > 1 factorisation with short-circuit; geometric, Laplace (−0 retry) and Gaussian (t = ⌊σ⌋+1 and the rational acceptance identity) structure. (3) path trees enumerated with exact rational weights by replaying the sampler under prescribed Bernoulli/uniform answers, pruned below a weight threshold (the pruned mass is the stated residual): discrete Laplace(1/2,1,3/2,2,5) end to end (coarse: residual about 2^-7..2^-10, enough for law errors of a percent), Bernoulli(exp(−γ)) for ten γ incl. γ > 1 and the Gaussian acceptance probability of every proposal y ∈ [−7,7] for σ ∈ {1/2,1,2,3,5/2} (fine: residual ≤ 2^-20); each mass interval [m, m+residual] must meet the closed-form probability bracketed by rational bounds on exp. (4) uniform big integers on a tape RNG: for every bound ≤ 1024 every candidate value (bijection, acceptance exactly < bound, rejected candidates consume fresh words); large bounds against the little-endian word model. (5) add_noise_to_agg_share for SumVec/Histogram/L1BoundSum over both fields (L1BoundSum bounds also at p−1, around 2^(W−1) of the integer type; measurement counts 0, 1, 2, 1000, usize::MAX) with the Laplace layer intercepted: one draw per coordinate whatever the count, scale = documented sensitivity / ε as exact rationals, share + noise reduced by floor-mod incl. negative noise and |noise| > p; ε = 0 and zero denominators refused. Non-trivial = a path with a rejection, a non-integer parameter, negative or oversized noise; distinct by case hash (enumerated items by construction)".into()
     }
     fn strategy(&self, _tier: Tier) -> BoxedStrategy<Case> {
         let dist = prop_oneof![Just(Dist::Laplace), Just(Dist::Gaussian)];
@@ -1203,7 +1243,7 @@ impl Check for C15 {
             2 => (param_strategy(), proptest::collection::vec((any::<bool>(), any::<u16>()), 0..=4)).prop_map(|((s, t), tries)| Case::LaplaceLayer { s, t, tries }),
             2 => (param_strategy(), proptest::collection::vec(any::<i32>(), 1..=4)).prop_map(|((n, d), proposals)| Case::GaussianLayer { n, d, proposals }),
             2 => (2u16..=400, any::<u64>(), 0u8..=3).prop_map(|(bits, seed, rejections)| Case::UniformLarge { bits, seed, rejections }),
-            4 => (any::<u8>(), any::<bool>(), prop_oneof![Just(1u64), Just(2), Just(255), Just(256), 1u64..=100000], any::<u8>(), 1u64..=50, 1u64..=50, any::<u64>(), proptest::collection::vec(-1_000_000i64..=1_000_000, 1..=6), any::<bool>()).prop_map(|(typ, f128, max, len, eps_n, eps_d, share_seed, noises, huge)| Case::Noise { typ, f128, max, len, eps_n, eps_d, share_seed, noises, huge }),
+            4 => (any::<u8>(), any::<bool>(), prop_oneof![Just(1u64), Just(2), Just(255), Just(256), 1u64..=100000], any::<u8>(), 1u64..=50, 1u64..=50, any::<u64>(), proptest::collection::vec(-1_000_000i64..=1_000_000, 1..=6), any::<bool>(), (prop_oneof![3 => Just(0u8), 2 => 1u8..5], prop_oneof![2 => Just(0u8), 1 => 1u8..5])).prop_map(|(typ, f128, max, len, eps_n, eps_d, share_seed, noises, huge, (max_shape, count_sel))| Case::Noise { typ, f128, max, len, eps_n, eps_d, share_seed, noises, huge, max_shape, count_sel }),
         ]
         .boxed()
     }
@@ -1227,8 +1267,8 @@ impl Check for C15 {
             cases.push(Case::UniformSmall { bound });
         }
         // zero epsilon / zero denominator
-        cases.push(Case::Noise { typ: 0, f128: true, max: 3, len: 2, eps_n: 0, eps_d: 1, share_seed: 1, noises: vec![1], huge: false });
-        cases.push(Case::Noise { typ: 1, f128: false, max: 3, len: 2, eps_n: 1, eps_d: 0, share_seed: 1, noises: vec![1], huge: false });
+        cases.push(Case::Noise { typ: 0, f128: true, max: 3, len: 2, eps_n: 0, eps_d: 1, share_seed: 1, noises: vec![1], huge: false, max_shape: 0, count_sel: 0 });
+        cases.push(Case::Noise { typ: 1, f128: false, max: 3, len: 2, eps_n: 1, eps_d: 0, share_seed: 1, noises: vec![1], huge: false, max_shape: 0, count_sel: 0 });
         for d in 1..=64u64 {
             for n in 0..=d {
                 cases.push(Case::Bernoulli { n, d });
@@ -1291,9 +1331,9 @@ impl Check for C15 {
                 obs.label("layer:uniform-large");
                 evals = uniform_large(*bits, *seed, *rejections, &mut obs);
             }
-            Case::Noise { typ, f128, max, len, eps_n, eps_d, share_seed, noises, huge } => {
+            Case::Noise { typ, f128, max, len, eps_n, eps_d, share_seed, noises, huge, max_shape, count_sel } => {
                 obs.label("layer:noise");
-                noise_case(*typ, *f128, *max, *len, *eps_n, *eps_d, *share_seed, noises, *huge, &mut obs);
+                noise_case(*typ, *f128, *max, *len, *eps_n, *eps_d, *share_seed, noises, *huge, *max_shape, *count_sel, &mut obs);
             }
         }
         obs.evals = evals.max(1);
